@@ -311,4 +311,263 @@ theorem simpleFlags_recipe (mtoks : List Tok) (pos : Nat) (hs : SimpleMods mtoks
     · rintro ⟨t, ht, hk⟩
       exact Or.inr ⟨t, ht, (modifierFlag_recipe _).mpr hk⟩
 
+/-! ### aliases -/
+
+def aliasSep (toks : List Tok) (i : Nat) : Tok := (toks[i]?).getD dummyTok
+
+/-- the events `parse_alias` pushes when the first `|` of the name tokens is at index `i` -/
+def aliasEvs (c : String) (toks : List Tok) (i : Nat) (cs : CharSpec) : List (Ev α) :=
+  if (toks.drop (i + 1)).any (fun t => t.kind == .or) then
+    [.error ⟨.error, .parse, s!"multiple-aliases:{c}",
+      [⟨(aliasSep toks i).start, (((toks.drop (i + 1)).getLast?).getD (aliasSep toks i)).stop⟩]⟩]
+  else if (buildText (aliasSep toks i).stop (toks.drop (i + 1))).isTextEmpty cs then
+    [.error ⟨.error, .parse, s!"empty-alias:{c}", [⟨(aliasSep toks i).start, (aliasSep toks i).stop⟩]⟩]
+  else []
+
+/-- the alias `parse_alias` returns -/
+def aliasRes (toks : List Tok) (i : Nat) (cs : CharSpec) : Option Text :=
+  if (toks.drop (i + 1)).any (fun t => t.kind == .or) then none
+  else if (buildText (aliasSep toks i).stop (toks.drop (i + 1))).isTextEmpty cs then none
+  else some (buildText (aliasSep toks i).stop (toks.drop (i + 1)))
+
+/-- `parse_alias` with COMPONENT_ALIAS when the name tokens contain a `|` -/
+theorem parseAlias_sep (c : String) (toks : List Tok) (off i : Nat) (s : BP α)
+    (he : s.ext.has Gen.EXT_COMPONENT_ALIAS = true)
+    (hi : toks.findIdx? (fun t => t.kind == .or) = some i) :
+    Sat (parseAlias (α := α) c toks off) s (fun r s' =>
+      Pushed (aliasEvs c toks i s.cs) s s' ∧ r = (buildText off (toks.take i), aliasRes toks i s.cs)) := by
+  unfold parseAlias
+  refine Sat.bind (Sat.hasExt ?_)
+  dsimp only
+  split
+  · rename_i hnone
+    rw [he] at hnone
+    simp only [if_true] at hnone
+    rw [hi] at hnone; cases hnone
+  · rename_i j hj
+    rw [he] at hj
+    simp only [if_true] at hj
+    rw [hi] at hj
+    simp only [Option.some.injEq] at hj
+    subst hj
+    refine Sat.bind (Sat.mono (bpText_spec _ _ s) ?_)
+    rintro _ s1 ⟨rfl, q1⟩
+    refine Sat.bind (Sat.get ?_)
+    have hcs : s1.cs = s.cs := q1.1
+    apply Sat.bind
+    apply Sat.mono (Q := fun r s' => Pushed (aliasEvs c toks i s.cs) s s' ∧ r = aliasRes toks i s.cs)
+    · split
+      · rename_i hany
+        refine Sat.bind (Sat.perrE ?_)
+        refine Sat.pure ⟨?_, ?_⟩
+        · refine (q1.pushed.trans (Pushed.one _ _)).cast ?_
+          simp only [aliasEvs, aliasSep, hany, if_true, List.nil_append]
+        · simp only [aliasRes, hany, if_true]
+      · rename_i hany
+        rw [hcs]
+        split
+        · rename_i hemp
+          refine Sat.bind (Sat.perrE ?_)
+          refine Sat.pure ⟨?_, ?_⟩
+          · refine (q1.pushed.trans (Pushed.one _ _)).cast ?_
+            simp only [aliasEvs, aliasSep, hany, hemp, if_true, if_false, List.nil_append, Bool.false_eq_true]
+          · simp only [aliasRes, aliasSep, hany, hemp, if_true, if_false, Bool.false_eq_true]
+        · rename_i hemp
+          refine Sat.pure ⟨?_, ?_⟩
+          · refine q1.pushed.cast ?_
+            simp only [aliasEvs, aliasSep, hany, hemp, if_false, Bool.false_eq_true]
+          · simp only [aliasRes, aliasSep, hany, hemp, if_false, Bool.false_eq_true]
+    · rintro alias s2 ⟨p2, rfl⟩
+      refine Sat.bind (Sat.mono (bpText_spec _ _ s2) ?_)
+      rintro _ s3 ⟨rfl, q3⟩
+      exact Sat.pure ⟨(p2.trans q3.pushed).cast (by simp), rfl⟩
+
+theorem parseAlias_quiet' (c : String) (toks : List Tok) (off : Nat) (s : BP α)
+    (ha : s.ext.has Gen.EXT_COMPONENT_ALIAS = false ∨ ∀ t ∈ toks, t.kind ≠ .or) :
+    Sat (parseAlias (α := α) c toks off) s (fun r s' => Pushed [] s s' ∧ r = (buildText off toks, none)) :=
+  Sat.mono (parseAlias_quiet c toks off s ha) (fun _ _ h => ⟨h.1.pushed, h.2⟩)
+
+/-! ### tails of components without quantity, with plain modifier tokens -/
+
+def dupEvs (mtoks : List Tok) : List (Ev α) :=
+  List.replicate (foldMods Modifiers.empty mtoks).2 (dupModEv (tokensSpan mtoks))
+
+/-- an ingredient without quantity whose modifiers are plain modifier tokens and whose name is not
+    blank: the tail pushes what `parse_alias` pushes, then one `duplicate-modifier` per repeated
+    modifier, and nothing else -/
+theorem ingredientTail_noqty (start stop modPos nameOffset : Nat) (mtoks : List Tok) (body : Body)
+    (note : Option Text) (s : BP α) (la : List (Ev α)) (nm : Text) (al : Option Text)
+    (hA : Sat (parseAlias (α := α) "ingredient" body.name nameOffset) s
+      (fun r s' => Pushed la s s' ∧ r = (nm, al)))
+    (hn : nm.isTextEmpty s.cs = false) (hq : body.quantity = none) (hs : SimpleMods mtoks) :
+    Sat (ingredientTail (α := α) start stop modPos nameOffset mtoks body note) s (fun r s' =>
+      Pushed (la ++ dupEvs mtoks) s s' ∧
+      r = some (.ingredient ⟨⟨simpleFlags mtoks modPos, none, nm, al, none, note⟩, ⟨start, stop⟩⟩)) := by
+  unfold ingredientTail
+  refine Sat.bind (Sat.mono hA ?_)
+  rintro ⟨name, alias⟩ s5 ⟨p5, heq⟩
+  cases heq
+  dsimp only
+  refine Sat.bind ?_
+  unfold checkEmptyName
+  refine Sat.bind (Sat.get ?_)
+  rw [p5.1, hn]
+  simp only [Bool.false_eq_true, if_false]
+  refine Sat.pure ?_
+  refine Sat.bind (Sat.mono (parseModifiers_simple mtoks modPos s5 hs) ?_)
+  rintro pm s6 ⟨rfl, p6⟩
+  rw [hq]
+  refine Sat.bind (Sat.pure ?_)
+  exact Sat.pure ⟨p5.trans p6, rfl⟩
+
+def recipeModEvs (mtoks : List Tok) : List (Ev α) :=
+  match mtoks.find? (fun t => t.kind == .at) with
+  | some t => [.error ⟨.error, .parse, "cookware-recipe-modifier", [⟨t.start, t.stop⟩]⟩]
+  | none => []
+
+/-- the same for a cookware item; a `@` among the modifiers adds `cookware-recipe-modifier`, labelled
+    with the first `@` -/
+theorem cookwareTail_noqty (start stop modPos nameOffset : Nat) (mtoks : List Tok) (body : Body)
+    (note : Option Text) (s : BP α) (la : List (Ev α)) (nm : Text) (al : Option Text)
+    (hA : Sat (parseAlias (α := α) "cookware" body.name nameOffset) s
+      (fun r s' => Pushed la s s' ∧ r = (nm, al)))
+    (hn : nm.isTextEmpty s.cs = false) (hq : body.quantity = none) (hs : SimpleMods mtoks) :
+    Sat (cookwareTail (α := α) start stop modPos nameOffset mtoks body note) s (fun r s' =>
+      Pushed (la ++ dupEvs mtoks ++ recipeModEvs mtoks) s s' ∧
+      r = some (.cookware ⟨⟨simpleFlags mtoks modPos, nm, al, none, note⟩, ⟨start, stop⟩⟩)) := by
+  unfold cookwareTail
+  refine Sat.bind (Sat.mono hA ?_)
+  rintro ⟨name, alias⟩ s5 ⟨p5, heq⟩
+  cases heq
+  dsimp only
+  refine Sat.bind ?_
+  unfold checkEmptyName
+  refine Sat.bind (Sat.get ?_)
+  rw [p5.1, hn]
+  simp only [Bool.false_eq_true, if_false]
+  refine Sat.pure ?_
+  refine Sat.bind ?_
+  unfold cookwareQty
+  rw [hq]
+  refine Sat.pure ?_
+  refine Sat.bind (Sat.mono (parseModifiers_simple mtoks modPos s5 hs) ?_)
+  rintro pm s6 ⟨rfl, p6⟩
+  have hrec := simpleFlags_recipe mtoks modPos hs
+  by_cases hcc : (simpleFlags mtoks modPos).val.contains Modifiers.RECIPE = true
+  · simp only [hcc, if_true]
+    refine Sat.bind (Sat.pure ?_)
+    obtain ⟨t, htm, htk⟩ := hrec.mp hcc
+    split
+    · rename_i t' hfind
+      refine Sat.bind (Sat.perrE ?_)
+      refine Sat.pure ⟨?_, rfl⟩
+      refine ((p5.trans p6).trans (Pushed.one _ _)).cast ?_
+      simp only [recipeModEvs, hfind, dupEvs]
+    · rename_i hnone
+      exfalso
+      rw [List.find?_eq_none] at hnone
+      exact hnone t htm (by simp [htk])
+  · simp only [hcc, if_false, Bool.false_eq_true]
+    refine Sat.bind (Sat.pure ?_)
+    refine Sat.bind (Sat.pure ?_)
+    refine Sat.pure ⟨?_, rfl⟩
+    refine (p5.trans p6).cast ?_
+    have : mtoks.find? (fun t => t.kind == .at) = none := by
+      rw [List.find?_eq_none]
+      intro t ht hk
+      exact hcc (hrec.mpr ⟨t, ht, by simpa using hk⟩)
+    simp only [recipeModEvs, this, dupEvs, List.append_nil]
+
+/-- **intermediate-reference data on cookware**: whenever `parse_modifiers` (run where the tail reaches
+    it) returns intermediate data, `inter-ref-not-allowed:cookware` is pushed on the data's span -/
+theorem cookwareTail_inter (start stop modPos nameOffset : Nat) (mtoks : List Tok) (body : Body)
+    (note : Option Text) (s : BP α) :
+    Sat (cookwareTail (α := α) start stop modPos nameOffset mtoks body note) s (fun _ s' =>
+      ∃ sq, Grow s sq ∧ ∀ d, (parseModifiers (α := α) mtoks modPos sq).1.inter = some d →
+        Has (.error ⟨.error, .parse, "inter-ref-not-allowed:cookware", [d.span]⟩) s s') := by
+  unfold cookwareTail
+  refine Sat.bind (Sat.mono ((FG.parseAlias _ _ _).sat s) ?_)
+  rintro ⟨name, alias⟩ s5 g5
+  dsimp only
+  refine Sat.bind (Sat.mono ((FG.checkEmptyName _ _).sat s5) ?_)
+  rintro _ s6 g6
+  have hq : FG (cookwareQty (α := α) body) := by unfold cookwareQty; fg_auto
+  refine Sat.bind (Sat.mono (hq.sat s6) ?_)
+  rintro q s7 g7
+  have g57 := (g5.trans g6).trans g7
+  refine Sat.bind (Sat.mono (Sat.and (Sat.run (parseModifiers mtoks modPos) s7) ((FG.parseModifiers _ _).sat s7)) ?_)
+  rintro pm s8 ⟨hrun, g8⟩
+  have hpm : (parseModifiers (α := α) mtoks modPos s7).1 = pm := by rw [hrun]
+  have hfin : FG (α := α) (do
+      if pm.flags.val.contains Modifiers.RECIPE then
+        match mtoks.find? (fun t => t.kind == .at) with
+        | some t => perr "cookware-recipe-modifier" [⟨t.start, t.stop⟩]
+        | none => panicWith "no recipe token in modifiers with recipe"
+      return some (Ev.cookware ⟨⟨pm.flags, name, alias, q, note⟩, ⟨start, stop⟩⟩)) := by
+    by_cases hc : pm.flags.val.contains Modifiers.RECIPE = true
+    · simp only [hc, if_true]
+      split <;> fg_auto
+    · simp only [hc, if_false, Bool.false_eq_true]
+      fg_auto
+  cases hd : pm.inter with
+  | some d =>
+    simp only [hd]
+    refine Sat.bind (Sat.perrE ?_)
+    refine Sat.mono (hfin.sat _) ?_
+    intro r s' g
+    refine ⟨s7, g57, ?_⟩
+    intro d' hd'
+    rw [hpm, hd] at hd'
+    cases hd'
+    exact ((Has.push _ _).left g).right (g57.trans g8)
+  | none =>
+    simp only [hd]
+    refine Sat.bind (Sat.pure ?_)
+    refine Sat.mono (hfin.sat _) ?_
+    intro r s' g
+    refine ⟨s7, g57, ?_⟩
+    intro d' hd'
+    rw [hpm, hd] at hd'
+    cases hd'
+
+/-! ### the flag determines the token kind -/
+
+theorem modifierFlag_one (k : TK) : modifierFlag k = some 1 ↔ k = .at := by cases k <;> decide
+theorem modifierFlag_two (k : TK) : modifierFlag k = some 2 ↔ k = .and := by cases k <;> decide
+theorem modifierFlag_four (k : TK) : modifierFlag k = some 4 ↔ k = .minus := by cases k <;> decide
+theorem modifierFlag_eight (k : TK) : modifierFlag k = some 8 ↔ k = .question := by cases k <;> decide
+theorem modifierFlag_sixteen (k : TK) : modifierFlag k = some 16 ↔ k = .plus := by cases k <;> decide
+
+theorem modifierFlag_inj {k k' : TK} {f : Nat} (h : modifierFlag k = some f) (h' : modifierFlag k' = some f) :
+    k = k' := by
+  have hm := modifierFlag_mem h
+  simp only [flagList, List.mem_cons, List.not_mem_nil, or_false] at hm
+  rcases hm with rfl | rfl | rfl | rfl | rfl
+  · exact ((modifierFlag_one k).mp h).trans ((modifierFlag_one k').mp h').symm
+  · exact ((modifierFlag_two k).mp h).trans ((modifierFlag_two k').mp h').symm
+  · exact ((modifierFlag_four k).mp h).trans ((modifierFlag_four k').mp h').symm
+  · exact ((modifierFlag_eight k).mp h).trans ((modifierFlag_eight k').mp h').symm
+  · exact ((modifierFlag_sixteen k).mp h).trans ((modifierFlag_sixteen k').mp h').symm
+
+theorem simpleMods_nodup_iff (l : List Tok) (hs : SimpleMods l) :
+    (l.map (fun t => modifierFlag t.kind)).Nodup ↔ (l.map (·.kind)).Nodup := by
+  unfold List.Nodup
+  rw [List.pairwise_map, List.pairwise_map]
+  constructor
+  · intro h
+    refine h.imp_of_mem ?_
+    intro a b _ _ hne hk
+    exact hne (by rw [hk])
+  · intro h
+    refine h.imp_of_mem ?_
+    intro a b ha hb hne hf
+    obtain ⟨f, hfa⟩ := Option.isSome_iff_exists.mp (hs a ha)
+    exact hne (modifierFlag_inj hfa (by rw [← hf]; exact hfa))
+
+/-- **duplicate modifier, exactly**: `parse_modifiers` pushes no `duplicate-modifier` iff the kinds of
+    the modifier tokens are pairwise different -/
+theorem foldMods_empty_dups_kinds (l : List Tok) (hs : SimpleMods l) :
+    (foldMods Modifiers.empty l).2 = 0 ↔ (l.map (·.kind)).Nodup := by
+  rw [foldMods_empty_dups l hs, simpleMods_nodup_iff l hs]
+
 end Cook
